@@ -60,6 +60,31 @@ def collect():
                 c = c05.build_case(s, set(cfg), i)
                 c.prelude = prelude
                 progs.append((f"c05/{c.key}", c.source_alone()))
+    # comptime code that reaches erroneous code, in the same file and in an imported file: the erroneous function must be
+    # flagged unsafe, so it is neither compiled nor *run at compile time* (it prints a marker first)
+    errs = {
+        "mismatch-on-annotated-local": "bad : bool = 5;",
+        "assign-to-immutable": "kk :: 1; kk = 2;",
+        "call-with-wrong-arg": "takes_bool(7);",
+    }
+    for ename, estmt in errs.items():
+        for where in ("same-file", "imported"):
+            q = "lib." if where == "imported" else ""
+            lib = ('printf :: (f: str, n: i64) extern;\ntakes_bool :: (b: bool) { }\n'
+                   f'pick :: () -> type {{ printf("<RAN%ld>", 7); {estmt} i32 }}\n'
+                   f'len_fn :: () -> usize {{ printf("<RAN%ld>", 7); {estmt} 3 }}\n'
+                   'LEN :: comptime { len_fn() };\n')
+            uses = {
+                "comptime-type": f"T :: comptime {{ {q}pick() }};\nmain :: () -> i32 {{ v : T = 1; 0 }}\n",
+                "array-length": f"main :: () -> i32 {{ arr : [{q}LEN]i32; 0 }}\n",
+                "comptime-arg": f"gen :: (comptime n: usize) -> usize {{ n }}\nmain :: () -> i32 {{ gen({q}LEN); 0 }}\n",
+                "comptime-local": f"main :: () -> i32 {{ x :: comptime {{ {q}len_fn() }}; 0 }}\n",
+            }
+            for uname, usrc in uses.items():
+                if where == "imported":
+                    progs.append((f"xfile/{ename}/{uname}/{where}", 'lib :: #import("lib.capy");\n' + usrc, {"lib.capy": lib}))
+                else:
+                    progs.append((f"xfile/{ename}/{uname}/{where}", lib + usrc))
     return progs
 
 
@@ -101,6 +126,11 @@ def classify(root, mod, idx, prog):
                 problems.append("no error diagnostic, object written, but no executable (link failed)")
             if res.compile_rc != 0:
                 problems.append(f"no error diagnostic but exit status {res.compile_rc}")
+    if key.startswith("xfile/"):
+        if "<RAN7>" in out:
+            problems.append("code that contains a reported error was executed at compile time (its marker was printed by the compiler)")
+        if state != "rejected" and not problems:
+            problems.append("the program contains an error and must be rejected")
     shutil.rmtree(jobdir, ignore_errors=True)
     if not problems:
         return state, None
@@ -125,7 +155,7 @@ def run(tier, seed):
     started = time.time()
     progs = collect()
     if tier == "quick":
-        progs = progs[::2]
+        progs = [p for i, p in enumerate(progs) if i % 2 == 0 or p[0].startswith("xfile/")]
     root, mod = core.setup_workdir("c07")
     mism = []
     states = {"rejected": 0, "built": 0, None: 0}
